@@ -117,9 +117,9 @@ CLAIMS = {
                  "the IP matcher only for IP hosts under key 'IP Address', commonName only when enabled, non-IP and no SAN seen; success "
                  "only after a matcher returned true, otherwise CertificateError; IPs compared by packed value with zone id cut; brackets "
                  "stripped only for IP literals; the fingerprint is normalised before its length selects md5/sha1/sha256 (32/40/64 = 2 x "
-                 "digest size), other lengths raise, hmac.compare_digest of digest vs un-hexed pin, inequality raises. "
+                 "digest size), other lengths raise, hmac.compare_digest of digest vs un-hexed pin, inequality raises. A SAN entry the matcher refuses must not end the walk before later entries were examined (C08-R8: it does - F20, known). "
                  "Declined: acceptance over the whole language of names (needs running the matcher)."),
-        "note": _TRUST + "hashlib digest sizes are read from the platform.",
+        "note": _TRUST + "hashlib digest sizes are read from the platform. F20 (a refused SAN entry hides the entries after it: order-dependent verdict) is a known finding.",
         "technique": "static analysis: regex structure analysis of folded pattern fragments, decision-table extraction on match_hostname, def-use on assert_fingerprint",
     },
     "C09": {
